@@ -286,11 +286,11 @@ def nontrivial(m, req, resp, before, after):
 
 PROFILE = machine.Profile(
     'c11', 'C11',
-    ops=C.BUILD + C.TRAITAGG * 2 + C.ALLOC * 2 + C.DELETE + C.NAMES +
+    ops=C.BUILD + C.TRAITAGG * 4 + C.ALLOC * 2 + C.DELETE + C.NAMES +
     C.STRUCT * 2 + [(14, 'read11'), (4, 'sweep')],
     oracles=[c11_oracle], nontrivial=nontrivial, steps=40,
     boundaries=BOUNDS, defect_rate=3,
-    builders={'read11': b_read, 'sweep': b_sweep})
+    builders={'read11': b_read, 'sweep': b_sweep}, rich_start=6)
 
 ASSUMPTIONS = C.ASSUMPTIONS + [
     'trusted: pv/model.py, a reference model transcribed from the API '
